@@ -12,10 +12,12 @@ CONSTANTS
   PowBits <- Pow02
   PointModes <- PmT
   Faults <- FaultsAll
+  Caps <- Cap0123
 INVARIANTS
   RollInOnceAtRightHeight
   BitsAccounted
   AritiesBounded
   SameIndexBits
+  CapsAccounted
   Emit
 CHECK_DEADLOCK FALSE
